@@ -1,6 +1,7 @@
 """C14: R-STRIDE (jump-table stride), R-JTORDER (clause order = declaration order), R-LABEL (label inventory, shapes, freshness)."""
 import re
 
+from .fresh import is_fresh_call
 from .. import backend, interp, prov, grammar
 from ..core import RuleResult
 from ..facts import AnalysisError
@@ -188,7 +189,7 @@ def _shape_of_origin(fx, fn, o, depth):
                 return [("lit", d["str"])]
         return [("other", s)]
     if o[0] == "arg":
-        return [("param", o[1])]
+        return [("param", o[1], tuple(o[2]))] if o[2] else [("param", o[1])]
     if o[0] == "call":
         t = fn.term(o[1])
         n = t.get("callee_name")
@@ -265,7 +266,10 @@ def _shape_of_origin(fx, fn, o, depth):
                 out = []
                 for p in inner:
                     if p[0] == "param" and p[1] - 1 < len(t["args"]):
-                        out.extend(label_shape(fx, fn, t["args"][p[1] - 1], depth + 1))
+                        a0 = t["args"][p[1] - 1]
+                        if len(p) > 2 and a0.get("pl"):
+                            a0 = dict(a0, pl={"l": a0["pl"]["l"], "p": list(a0["pl"]["p"]) + [{"f": 0, "n": x} for x in p[2]]})
+                        out.extend(label_shape(fx, fn, a0, depth + 1))
                     else:
                         out.append(p)
                 return out
@@ -392,11 +396,12 @@ def rule_label(ctx):
     for k0 in cands:
         f0 = Fn(fx.fns[k0])
         if any(t.get("callee_name") == "contains" and "HashSet" in (t.get("callee_self") or "") for _, t in f0.calls()) and \
-                any(t.get("callee_name") == "fresh_identifier" for _, t in f0.calls()):
+                any(is_fresh_call(ctx, t) for _, t in f0.calls()):
             fn = f0
             break
     flow = Flow(fn)
-    fresh = [bi for bi, t in fn.calls() if t.get("callee_name") == "fresh_identifier"]
+    fresh = [bi for bi, t in fn.calls() if is_fresh_call(ctx, t)]
+    fresh_names = {fn.term(bi).get("callee_name") for bi in fresh}
     cont = []
     for bi, t in fn.calls():
         if t.get("callee_name") == "contains" and "HashSet" in (t.get("callee_self") or ""):
@@ -422,11 +427,30 @@ def rule_label(ctx):
         a = t["args"][1]
         ar = op_root(a)
         for o in flow.origins(ar, ()):
-            if o[0] == "call" and fn.term(o[1]).get("callee_name") == "new":
-                inner = fn.term(o[1])["args"][0]
-                tested_shape = _merge_lits(label_shape(fx, fn, inner))
-                want = [("field", "fresh_identifier", ("name",)), ("lit", sep), ("field", "fresh_identifier", ("id",))]
-                if tested_shape == want:
+            if o[0] != "call":
+                continue
+            tc = fn.term(o[1])
+            if tc.get("callee_name") == "new":
+                tested_shape = _merge_lits(label_shape(fx, fn, tc["args"][0]))
+            else:
+                # a helper that builds the printed form: Identifier::new(<text>) inside it, its parameter replaced by the argument
+                k2 = tc.get("resolved_key") or (tc.get("callee_key") if not tc.get("callee_trait") else None)
+                if k2 not in fx.fns or fx.fns[k2]["crate"] != "core2axcut" or len(tc["args"]) != 1:
+                    continue
+                hfn = Fn(fx.fns[k2])
+                for o2 in Flow(hfn).origins(0, ()):
+                    if o2[0] == "call" and hfn.term(o2[1]).get("callee_name") == "new":
+                        tested_shape = []
+                        for p in _merge_lits(label_shape(fx, hfn, hfn.term(o2[1])["args"][0])):
+                            if p[0] == "param" and p[1] == 1 and len(p) > 2:
+                                a0 = tc["args"][0]
+                                a0 = dict(a0, pl={"l": a0["pl"]["l"], "p": list(a0["pl"]["p"]) + [{"f": 0, "n": x} for x in p[2]]})
+                                tested_shape.extend(label_shape(fx, fn, a0))
+                            else:
+                                tested_shape.append(p)
+                        tested_shape = _merge_lits(tested_shape)
+            if tested_shape is not None:
+                if any(tested_shape == [("field", fnm, ("name",)), ("lit", sep), ("field", fnm, ("id",))] for fnm in fresh_names):
                     tested_ok = True
     if cont and in_loop and tested_ok:
         res.inst(ikey, fn.file, fn.line, "ok", "fresh_identifier is retried until used_labels does not contain the printed name (name ++ %r ++ id)" % sep)
